@@ -1104,6 +1104,19 @@ Definition call_builtin (env : nat) (b : bfn) (args : list val) (kwargs : kwargs
           end
       | _ => tyerr "Arr#at requires at least 2 args"
       end
+  | B_Arr_bear =>
+      proto <- need (arg0 args) "Arr#bear requires at least 1 arg" ;;
+      match proto with
+      | VArr _ _ => bear_with proto args "Arr" (Some proto)
+      | _ => id <- with_st (fun st => length (heap st)) ;;
+             bear_with proto args "Arr" (Some (VArr (VObj id) []))
+      end
+  | B_Float_B =>
+      self <- need (arg0 args) "Float#B requires at least 1 arg" ;;
+      match self with
+      | VFloat bits _ => ret (VBool (negb ((bits =? 0)%Z || (bits =? 9223372036854775808)%Z)))
+      | _ => unsup "Float#B of non-float"
+      end
   (* ---------- Map ---------- *)
   | B_Map_eq =>
       match args with
